@@ -61,7 +61,22 @@ pub enum AddrFamily {
 pub enum Case {
     File { initial: u32, append: bool, direct: bool, ops: Vec<FileOp> },
     Tree { ops: Vec<TreeOp> },
-    Open { read: bool, write: bool, write_only: bool, append: bool, truncate: bool, create: bool, create_new: bool, sync: u8, mode: Option<u16>, target: u8, direct: bool },
+    Open {
+        read: bool,
+        write: bool,
+        write_only: bool,
+        append: bool,
+        truncate: bool,
+        create: bool,
+        create_new: bool,
+        sync: u8,
+        mode: Option<u16>,
+        target: u8,
+        direct: bool,
+        /// `open_temp_file` (O_TMPFILE) in a directory instead of `open`.
+        #[serde(default)]
+        temp: bool,
+    },
     Stream { family: AddrFamily, direct: bool, payload: u16, send_flags: u8, recv_peek: bool, recv_waitall: bool, vectored: u8, shutdown: u8, name_len: u8 },
     Dgram { family: AddrFamily, payload: u16, vectored: u8, name_len: u8 },
     SockOpt { which: u8, value: u32, tcp: bool },
@@ -229,7 +244,8 @@ impl Property for C13 {
             6 => (0u32..70_000, any::<bool>(), any::<bool>(), proptest::collection::vec(file_op(), 1..7)).prop_map(|(initial, append, direct, ops)| Case::File { initial, append, direct, ops }),
             3 => proptest::collection::vec(tree_op, 1..10).prop_map(|ops| Case::Tree { ops }),
             4 => (any::<bool>(), any::<bool>(), any::<bool>(), any::<bool>(), any::<bool>(), any::<bool>(), any::<bool>(), 0u8..3, proptest::option::of(0u16..0o1000), 0u8..4, any::<bool>())
-                .prop_map(|(read, write, write_only, append, truncate, create, create_new, sync, mode, target, direct)| Case::Open { read, write, write_only, append, truncate, create, create_new, sync, mode, target, direct }),
+                .prop_map(|(read, write, write_only, append, truncate, create, create_new, sync, mode, target, direct)| Case::Open { read, write, write_only, append, truncate, create, create_new, sync, mode, target, direct, temp: false }),
+            1 => (any::<bool>(), any::<bool>(), any::<bool>(), proptest::option::of(0u16..0o1000), any::<bool>()).prop_map(|(read, write, write_only, mode, direct)| Case::Open { read, write, write_only, append: false, truncate: false, create: false, create_new: false, sync: 0, mode, target: 2, direct, temp: true }),
             5 => (family(), any::<bool>(), 1u16..5000, any::<u8>(), any::<bool>(), any::<bool>(), 0u8..5, 0u8..4, 1u8..100)
                 .prop_map(|(family, direct, payload, send_flags, recv_peek, recv_waitall, vectored, shutdown, name_len)| Case::Stream { family, direct, payload, send_flags, recv_peek, recv_waitall, vectored, shutdown, name_len }),
             3 => (family(), 1u16..2000, 0u8..5, 1u8..100).prop_map(|(family, payload, vectored, name_len)| Case::Dgram { family, payload, vectored, name_len }),
@@ -654,7 +670,7 @@ fn run_tree(real: &mut Real, ops: &[TreeOp], classes: &mut Vec<&'static str>) ->
 }
 
 fn run_open(real: &mut Real, case: &Case, classes: &mut Vec<&'static str>) -> Result<(), String> {
-    let Case::Open { read, write, write_only, append, truncate, create, create_new, sync, mode, target, direct } = case else { unreachable!() };
+    let Case::Open { read, write, write_only, append, truncate, create, create_new, sync, mode, target, direct, temp } = case else { unreachable!() };
     let scratch = Scratch::new("open");
     let (ra, rb) = (scratch.dir.join("a"), scratch.dir.join("b"));
     for r in [&ra, &rb] {
@@ -717,7 +733,11 @@ fn run_open(real: &mut Real, case: &Case, classes: &mut Vec<&'static str>) -> Re
         oo = oo.kind(Kind::Direct);
         classes.push("direct-descriptor");
     }
-    let a = real.block_on(oo.open(real.sq.clone(), ra.join(rel)))?;
+    if *temp {
+        classes.push("temp-file");
+        flags |= libc::O_TMPFILE;
+    }
+    let a = if *temp { real.block_on(oo.open_temp_file(real.sq.clone(), ra.join(rel)))? } else { real.block_on(oo.open(real.sq.clone(), ra.join(rel)))? };
     let fb = unsafe { libc::open(cstr(&rb.join(rel)).as_ptr(), flags | libc::O_CLOEXEC, m.unwrap_or(0o666)) };
     let b = if fb < 0 { Err(last_err()) } else { Ok(()) };
     let what = format!("open{}", if *direct { "@direct" } else { "" });
@@ -733,6 +753,15 @@ fn run_open(real: &mut Real, case: &Case, classes: &mut Vec<&'static str>) -> Re
             let (ca, cb) = (unsafe { libc::fcntl(bfd.as_raw_fd(), libc::F_GETFD) }, unsafe { libc::fcntl(fb, libc::F_GETFD) });
             if ca != cb {
                 return Err(detail(format!("open-cloexec:{what}: F_GETFD {ca} vs {cb}")));
+            }
+            // The object behind the descriptor: type and permission bits.
+            let st = |fd: RawFd| {
+                let mut st: libc::stat = unsafe { std::mem::zeroed() };
+                if unsafe { libc::fstat(fd, &mut st) } == 0 { Some(st.st_mode) } else { None }
+            };
+            let (sa, sb) = (st(bfd.as_raw_fd()), st(fb));
+            if sa != sb {
+                return Err(detail(format!("open-mode:{what}: fstat st_mode {:o} through a10, {:o} through open(2)", sa.unwrap_or(0), sb.unwrap_or(0))));
             }
         }
     }
